@@ -152,8 +152,8 @@ LEVELS = {
  'C19': {
   'text': 'C19_hub_update_global (withdraw messages for every delegation, then swap with the booked totals, then dispatch; only last_index_modification changes in the hub), C19_withdraw_reward_pays_all (everything pending on a validator goes to the withdraw address, nothing else moves), '
           'C19_dispatch_delivers (C17: keeper cut + everything else forwarded, reward index update last, nothing kept), C19_rebond_raises_stsei_only (stSei pool + re-bonded amount, no mint, bSei pool and rate untouched), with C14_update_records_bank / C14_update_dust for the bSei holders\' side. '
-          'The "executes whatever the amounts" clause inherits D3 (zero-amount transfers; known finding, same three call sites as C17). C19_end_to_end (the whole transaction through the real message executor): if an UpdateGlobalIndex transaction succeeds in a wired system - hub handler, every reward withdrawal, dispatcher swap and dispatch with the swap-contract calls and payouts, keeper and reward-contract transfers, BondRewards with its delegations, the reward contract\'s index update - then both token ledgers are exactly as before, the registry is untouched, every unbonding claim, the batch history and the open batch are untouched, prev_hub_balance is unchanged and the hub\'s liquid staking-denom balance is exactly what it was. Proved with a closure argument over the messages the update can cause (flow_step) and a potential argument for the hub\'s bank balance (UgiInv). C19_end_to_end_delivery (same executor, premises: keeper rate at most 1, the two reward denoms distinct, keeper is not the dispatcher): after a successful transaction every reward pending on a validator the hub delegated to has been withdrawn (all three denoms) and the dispatcher holds nothing of either reward denom - every coin it held or received was sent on; a two-phase queue invariant (DeliverInv). C19_end_to_end_pools (additionally: no slash unrecognised at the start, i.e. booked stake at most delegated stake, and the staking-module facts ChainOK): at the end the bSei pool is exactly what it was and the stSei pool has grown by exactly the amount by which the hub\'s delegated stake has grown - what was re-bonded was delegated in full and booked to stSei alone (PoolInv: only reward withdrawals, the swap and its payouts run before the dispatch; the dispatch emits at most one BondRewards, which runs with no Delegate pending so its slashing check changes nothing).',
-  'note': 'Trusted: Lean kernel; models of the four contracts; swap/oracle stubs (E6); A-CHAIN-4. The clause that claimable grows by exactly the delivered amount is the per-contract theorem C14_update_records_bank; every UpdateGlobalIndex transaction executed on the minichain is judged by the C19 oracle (all clauses). PARTIAL: D3.',
+          'The "executes whatever the amounts" clause inherits D3 (zero-amount transfers; known finding, same three call sites as C17). C19_end_to_end (the whole transaction through the real message executor): if an UpdateGlobalIndex transaction succeeds in a wired system - hub handler, every reward withdrawal, dispatcher swap and dispatch with the swap-contract calls and payouts, keeper and reward-contract transfers, BondRewards with its delegations, the reward contract\'s index update - then both token ledgers are exactly as before, the registry is untouched, every unbonding claim, the batch history and the open batch are untouched, prev_hub_balance is unchanged and the hub\'s liquid staking-denom balance is exactly what it was. Proved with a closure argument over the messages the update can cause (flow_step) and a potential argument for the hub\'s bank balance (UgiInv). C19_end_to_end_delivery (same executor, premises: keeper rate at most 1, the two reward denoms distinct, keeper is not the dispatcher): after a successful transaction every reward pending on a validator the hub delegated to has been withdrawn (all three denoms) and the dispatcher holds nothing of either reward denom - every coin it held or received was sent on; a two-phase queue invariant (DeliverInv). C19_end_to_end_pools (additionally: no slash unrecognised at the start, i.e. booked stake at most delegated stake, and the staking-module facts ChainOK): at the end the bSei pool is exactly what it was and the stSei pool has grown by exactly the amount by which the hub\'s delegated stake has grown - what was re-bonded was delegated in full and booked to stSei alone (PoolInv: only reward withdrawals, the swap and its payouts run before the dispatch; the dispatch emits at most one BondRewards, which runs with no Delegate pending so its slashing check changes nothing). C19_end_to_end_holders (same premises): the reward contract is touched by exactly one message of the transaction, its own index update, which runs as the very last message; with no bSei held it is left exactly as it was, otherwise the balance it records is its whole final bank balance in the reward denom (everything delivered during the transaction is booked) and, for a reward state satisfying the C14 invariant, the holders\' total claimable grows by everything newly recorded up to less than total_balance atomics (RewInv).',
+  'note': 'Trusted: Lean kernel; models of the four contracts; swap/oracle stubs (E6); A-CHAIN-4. All clauses except liveness are now whole-transaction theorems; every UpdateGlobalIndex transaction executed on the minichain is judged by the C19 oracle (all clauses). PARTIAL: D3.',
   'technique': 'Lean 4 end-to-end theorem over the whole index-update transaction (closure + potential argument through the message executor) plus per-contract theorems; end-to-end oracle on implementation transactions',
  },
  'C09': {
